@@ -19,6 +19,21 @@ fn run_case(c: &Val) -> Val {
     match fam {
         "valid" => fam_valid::run(args),
         "be" => fam_be::run(args),
+        "iovs" => {
+            let lens: Vec<usize> = args[0].as_l().unwrap_or(&[]).iter().map(|v| v.as_u64().unwrap_or(0) as usize).collect();
+            let skip = args[1].as_u64().unwrap_or(0) as usize;
+            let (i, off) = vhost::vhost_user::verif_hooks::sub_iovs_offset(&lens, skip);
+            Val::L(vec![Val::N(i as u128), Val::N(off as u128)])
+        }
+        "seg" => {
+            // [cfg; outs; whole msgs; variant msgs; kind; k; o] -> [obs(whole); obs(variant)]
+            if args.len() < 4 {
+                return Val::err("args");
+            }
+            let a = fam_be::run(&[args[0].clone(), args[1].clone(), args[2].clone()]);
+            let b = fam_be::run(&[args[0].clone(), args[1].clone(), args[3].clone()]);
+            Val::L(vec![a, b])
+        }
         _ => Val::err("family"),
     }
 }
